@@ -128,7 +128,10 @@ def _regen_crctable(ctx):
 # translator's subset is a broken tie (kind `tool`): the unit's file is replaced by a stub that does not compile.
 GO2LEAN_UNITS = ('crc16', 'basetype', 'proto', 'decoder', 'decoderbits', 'encoder',
                  # units of translators/go2lean/targets_*.go (one file per unit)
-                 'encoderlru', 'protomarshal', 'readbuffer', 'readbuffercap', 'rawsize', 'kitint', 'decodersize')
+                 'encoderlru', 'protomarshal', 'readbuffer', 'readbuffercap', 'rawsize', 'kitint', 'decodersize',
+                 'kitangle',
+                 'encodermesgdef',
+                 )
 
 def _go2lean_step(unit):
     def step(ctx):
